@@ -1,0 +1,72 @@
+//! Read-only observation of loss-recovery accounting for external verification harnesses.
+//!
+//! Compiled only with the `verif-probe` cargo feature; never writes to the connection.
+
+use super::{Connection, SpaceId};
+
+/// Snapshot of internal accounting (see [`Connection::verif_probe`])
+#[derive(Debug, Clone, Copy, PartialEq, Eq)]
+pub struct VerifProbe {
+    /// `path.in_flight.bytes`
+    pub in_flight_bytes: u64,
+    /// `path.in_flight.ack_eliciting`
+    pub in_flight_ack_eliciting: u64,
+    /// Sum of `size` over all tracked sent packets of the current path generation
+    pub tracked_in_flight_bytes: u64,
+    /// Number of tracked ack-eliciting sent packets of the current path generation
+    pub tracked_ack_eliciting: u64,
+    /// Number of tracked sent packets, any path
+    pub tracked_packets: u64,
+    /// Pending loss probes per packet-number space
+    pub loss_probes: [u32; 3],
+    /// Consecutive PTO count
+    pub pto_count: u32,
+    /// Congestion controller window
+    pub window: u64,
+    /// Whether the current path is validated
+    pub path_validated: bool,
+    /// Bytes sent on the current path
+    pub path_total_sent: u64,
+    /// Bytes received on the current path
+    pub path_total_recvd: u64,
+    /// Whether a previous path is still retained
+    pub has_prev_path: bool,
+}
+
+impl Connection {
+    /// Observe internal loss-recovery accounting without changing anything
+    pub fn verif_probe(&self) -> VerifProbe {
+        let generation = self.path.generation();
+        let mut tracked_in_flight_bytes = 0u64;
+        let mut tracked_ack_eliciting = 0u64;
+        let mut tracked_packets = 0u64;
+        let mut loss_probes = [0u32; 3];
+        for (i, space) in [SpaceId::Initial, SpaceId::Handshake, SpaceId::Data]
+            .into_iter()
+            .enumerate()
+        {
+            loss_probes[i] = self.spaces[space].loss_probes;
+            for (_, packet) in self.spaces[space].sent_packets.range(..) {
+                tracked_packets += 1;
+                if packet.path_generation == generation {
+                    tracked_in_flight_bytes += u64::from(packet.size);
+                    tracked_ack_eliciting += u64::from(packet.ack_eliciting);
+                }
+            }
+        }
+        VerifProbe {
+            in_flight_bytes: self.path.in_flight.bytes,
+            in_flight_ack_eliciting: self.path.in_flight.ack_eliciting,
+            tracked_in_flight_bytes,
+            tracked_ack_eliciting,
+            tracked_packets,
+            loss_probes,
+            pto_count: self.pto_count,
+            window: self.path.congestion.window(),
+            path_validated: self.path.validated,
+            path_total_sent: self.path.total_sent,
+            path_total_recvd: self.path.total_recvd,
+            has_prev_path: self.prev_path.is_some(),
+        }
+    }
+}
